@@ -12,6 +12,7 @@ mod corpus;
 mod gen;
 mod item;
 mod minimise;
+mod miri_tier;
 mod oracle;
 mod plan;
 mod prng;
@@ -38,6 +39,7 @@ pub struct Cfg {
     pub backend: Option<Backend>,
     pub build: Option<Build>,
     pub rustc_tier: bool,
+    pub miri_tier: bool,
     pub evidence: PathBuf,
 }
 
@@ -703,6 +705,9 @@ fn cmd_replay(cfg: &Cfg, path: &Path) -> i32 {
     if v["kind"] == "rustc_tier" {
         return rustc_tier::replay(cfg, &v, path);
     }
+    if v["kind"] == "miri_tier" {
+        return miri_tier::replay(cfg, &v, path);
+    }
     let (Some(backend), Some(build)) = (v["backend"].as_str().and_then(Backend::parse), v["build"].as_str().and_then(Build::parse)) else {
         eprintln!("bad replay file");
         return 2;
@@ -905,6 +910,27 @@ fn cmd_run(cfg: &Cfg) -> i32 {
         }
     }
 
+    // tier M: the host interpreted by Miri under several seeds (thorough)
+    let mut miri_tier_json = json!({"ran": false});
+    if cfg.miri_tier {
+        match miri_tier::run(cfg, &corpus) {
+            Ok(r) => {
+                if let Some(v) = &r.violation {
+                    println!("violation (miri tier): {}", v.0);
+                    println!("VIOLATION property=C19 replay={}", v.1.display());
+                    exit = 1;
+                }
+                miri_tier_json = r.json;
+            },
+            Err(e) => {
+                eprintln!("harness error (miri tier): {}", e);
+                if exit == 0 {
+                    return 2;
+                }
+            },
+        }
+    }
+
     // ---- evidence
     let wall = t0.elapsed().as_secs_f64();
     total.nontrivial.sort();
@@ -966,6 +992,7 @@ fn cmd_run(cfg: &Cfg) -> i32 {
             "harness_determinism_guard": {"worlds_executed_twice": guard_worlds, "result": guard_note},
             "aslr_disabled_for_hosts": env.aslr_off,
             "rustc_tier": rustc_tier_json,
+            "miri_tier": miri_tier_json,
             "divergent_worlds": n_div,
             "replays": reports.iter().map(|r| json!({"path": r.path.to_string_lossy(), "signature": r.signature})).collect::<Vec<_>>(),
             "known_finding_lines": known_lines,
@@ -1044,6 +1071,7 @@ fn main() {
         backend: None,
         build: None,
         rustc_tier: false,
+        miri_tier: false,
         evidence: PathBuf::new(),
     };
     let mut replay_path: Option<PathBuf> = None;
@@ -1068,6 +1096,8 @@ fn main() {
             },
             "--rustc-tier" => cfg.rustc_tier = true,
             "--no-rustc-tier" => cfg.rustc_tier = false,
+            "--miri-tier" => cfg.miri_tier = true,
+            "--no-miri-tier" => cfg.miri_tier = false,
             "--replay" => {
                 replay_path = Some(PathBuf::from(&args[i + 1]));
                 i += 1;
@@ -1093,6 +1123,9 @@ fn main() {
     if !args.iter().any(|a| a == "--no-rustc-tier") {
         cfg.rustc_tier = true;
     }
+    if cfg.tier == "thorough" && !args.iter().any(|a| a == "--no-miri-tier") {
+        cfg.miri_tier = true;
+    }
     if cfg.evidence.as_os_str().is_empty() {
         cfg.evidence = cfg.verif.join("evidence/C19.json");
     }
@@ -1106,6 +1139,22 @@ fn main() {
             },
         },
         "selftest" => cmd_selftest(&cfg),
+        "miri-tier" => match miri_tier::run(&cfg, &corpus::load(&cfg.repo)) {
+            Ok(r) => {
+                println!("{}", serde_json::to_string_pretty(&r.json).unwrap());
+                if let Some(v) = r.violation {
+                    println!("violation (miri tier): {}", v.0);
+                    println!("VIOLATION property=C19 replay={}", v.1.display());
+                    1
+                } else {
+                    0
+                }
+            },
+            Err(e) => {
+                eprintln!("harness error (miri tier): {}", e);
+                2
+            },
+        },
         "rustc-tier-prepare" => match rustc_tier::prepare(&cfg) {
             Ok(()) => 0,
             Err(e) => {
